@@ -608,7 +608,12 @@ impl<'s, M: Matcher, S: Sink> Core<'s, M, S> {
         if self.config.passthru {
             return false;
         }
-        if self.config.stop_on_nonmatch && self.has_matched {
+        if self.config.stop_on_nonmatch
+            && (self.has_matched || self.config.invert_match)
+        {
+            // When inverting, the fast path skips over the non-matching line
+            // that ends a run of inverted matches without looking at it, so
+            // it cannot tell where to stop.
             return false;
         }
         if let Some(line_term) = self.matcher.line_terminator() {
